@@ -252,6 +252,7 @@ def decide(prop, tier, seed):
 
     # ---- known findings and witnesses
     printed = []
+    stale = []
     real_violations = []
     finder = cfg.get('witness')
     for v in violations:
@@ -267,18 +268,31 @@ def decide(prop, tier, seed):
                 printed.append('KNOWN-FINDING: property=%s %s' % (prop, k['what']))
                 v['known'] = k['id']
                 continue
+            # the obligation still fails but the recorded witness no longer misbehaves: the defect
+            # looks repaired and the proof has to be re-targeted; this is not evidence of a violation
+            stale.append('%s: obligation %s still fails but the recorded witness of known finding %s no longer '
+                         'reproduces' % (prop, v['label'], k['id']))
+            continue
         real_violations.append(v)
     # known findings whose obligation no longer fails are simply not printed
 
     rc = 0
     undecided = []
+    seen_labels = set()
+    finder_cache = {}
     for v in real_violations:
+        if v['label'] in seen_labels:
+            continue
+        seen_labels.add(v['label'])
         witness = v.get('fixed_witness')
         if witness is None and finder:
-            try:
-                witness = finder(v, tier)
-            except Undecided:
-                witness = None
+            ck = v['label'].split(':')[0] if v['label'].startswith('alloc:') else 'w'
+            if ck not in finder_cache:
+                try:
+                    finder_cache[ck] = finder(v, tier)
+                except Undecided:
+                    finder_cache[ck] = None
+            witness = finder_cache[ck]
         if v.get('needs_witness') and not (witness and witness.get('found')):
             # the function contains loops the sidecar has no invariant for; without a confirmed
             # witness the failed obligation only says "not proved"
@@ -301,7 +315,12 @@ def decide(prop, tier, seed):
         print(ln)
     if undecided and rc == 0:
         raise Undecided('unannotated-loop', '\n'.join(undecided))
+    if stale and rc == 0:
+        raise Undecided('known-finding-stale', '\n'.join(stale))
 
+    # obligations that fail only because of a listed known finding are reported separately
+    n_known = sum(1 for v in violations if v.get('known'))
+    obligations -= n_known
     evidence = {
         'property_id': prop, 'tier': tier, 'seed': seed, 'level': 'proof',
         'coverage': {
@@ -315,7 +334,7 @@ def decide(prop, tier, seed):
             'solver_time': solver,
             'bounded_checks_not_counted_as_proof': bounded,
             'vacuity_canaries': canaries,
-            'known_findings_reported': printed,
+            'known_findings_reported': printed, 'obligations_failing_only_by_known_finding': n_known,
             'notes': notes,
             'scope': cfg.get('scope', ''),
             'failed_obligations': [dict(v) for v in violations],
@@ -345,8 +364,10 @@ def replay_file(prop, path):
         return 1
     out, err = run_replay(w['replay_args'])
     print('witness: %s' % json.dumps(w.get('witness')))
-    print('real code now: %s' % json.dumps(out))
-    return 1 if out and out.get('violates') else 0
+    print('real code now: %s %s' % (json.dumps(out), err[-300:] if err else ''))
+    if out is None:
+        return 1      # the replay process died (abort / crash): the witness still misbehaves
+    return 1 if out.get('violates') else 0
 
 
 def main(argv):
